@@ -31,7 +31,7 @@ ASSUMPTIONS = [
     "the resulting method set after a history is: registrations in order minus unregistered functions",
     "iteration order pinned identically on both sides",
 ]
-REPORT_COUNTERS = ["histories_ovld", "histories_mtm", "mutations", "probe_comparisons", "rereg_ops", "unreg_ops",
+REPORT_COUNTERS = ["histories_ovld", "histories_ovld_linkback_child", "histories_mtm", "mutations", "probe_comparisons", "rereg_ops", "unreg_ops",
                    "mutation_after_failing_probe", "mutation_before_first_use", "mtm_lookups_raised"]
 
 
@@ -43,7 +43,8 @@ def plan(tier):
 
 
 def gen_case(rng, params, idx):
-    target = "mtm" if idx % 4 == 3 else "ovld"
+    # ovld_lb: every change is made on a parent that is never called itself; calls and probes go to a linkback copy
+    target = "mtm" if idx % 4 == 3 else "ovld_lb" if idx % 4 == 1 else "ovld"
     hier = gen.gen_hierarchy(rng, rng.randint(2, 5), attrs=False, p_multi=0.5)
     pool = [s["name"] for s in hier] + ["object", "int", "str"]
     npos = rng.choice([1, 1, 2])
@@ -59,20 +60,20 @@ def gen_case(rng, params, idx):
                 # value-dependent types: their table entries are found through the *bound*, after a plain class may
                 # already have been looked up and cached
                 pos[rng.randrange(n)]["t"] = rng.choice([["L", 0], ["L", 1], ["L", 0, 1], ["D", "int", "even"], ["D", "object", "truthy"]])
-            if target == "ovld" and rng.random() < 0.1 and n >= 1:
+            if target != "mtm" and rng.random() < 0.1 and n >= 1:
                 pos[-1] = dict(pos[-1], opt=True)
             m = {"mid": mid, "pos": pos, "kw": [], "prio": rng.choice([0, 0, 0, 1]),
-                 "kind": rng.choice(["leaf", "leaf", "next"]) if target == "ovld" else "leaf"}
+                 "kind": rng.choice(["leaf", "leaf", "next"]) if target != "mtm" else "leaf"}
             ops.append(["reg", m])
             live.append(m)
             mid += 1
         elif r < 0.6:
             src = rng.choice(live)
-            m = dict(src, mid=mid, kind=rng.choice(["leaf", "next"]) if target == "ovld" else "leaf")
+            m = dict(src, mid=mid, kind=rng.choice(["leaf", "next"]) if target != "mtm" else "leaf")
             ops.append(["reg", m])
             live.append(m)
             mid += 1
-        elif r < 0.75 and target == "ovld":
+        elif r < 0.75 and target != "mtm":
             m = rng.choice(live)
             ops.append(["unreg", m["mid"]])
             live.remove(m)
@@ -103,6 +104,10 @@ def _check_ovld(spec, res, env):
         return fn
 
     H = Ovld()
+    # what is called: the function itself, or a linkback copy of it (the parent is then never called)
+    C = H.copy(linkback=True) if spec["target"] == "ovld_lb" else H
+    if C is not H:
+        res.count("histories_ovld_linkback_child")
     hfn = {}
     live = []
     used = False
@@ -125,7 +130,7 @@ def _check_ovld(spec, res, env):
             if live:
                 p = spec["probes"][op[1] % len(spec["probes"])]
                 from ..observe import outcome
-                out = outcome(lambda: H(*[_val(env, n) for n in p]), vf)
+                out = outcome(lambda: C(*[_val(env, n) for n in p]), vf)
                 used = called = True
                 if out[0] != "ran":
                     failing_seen = True
@@ -164,7 +169,7 @@ def _check_ovld(spec, res, env):
             exp = probe(F, fvf)
         except Exception:  # noqa: BLE001
             raise
-        got = probe(H, vf)
+        got = probe(C, vf)
         used = True
         if any(o[0] != "ran" for o in got):
             failing_seen = True
